@@ -4,7 +4,7 @@
      stack  : prefix notation, comma separated:
                 L,k,kind,skip,unc,retry | WR,<w> | WD,<w> | WS,<w>            (writable)
                 C,<s>,<w> | R,n,<s>*n | F,f,n,<s>*n (n>=1) | D,<s> | S,<s>
-                H,h,sconvcompressed,skip,unc,retry,<s> | P,h,<s>
+                H,h,sconvcompressed,skip,unc,retry,<s> | P,h,<s> | X,k (content-trusting foreign store)
               kind in l h s f g (local http s3 sftp gcs); booleans 0/1
      ops    : ';'-separated   g:<idhex>            GetChunk
                               x:<idhex>:<size>     writeChunk    (assemble.go)
@@ -14,7 +14,8 @@
      objs   : ';'-separated   k:<idhex>:<objhex>   what backend k holds for that id
      acts   : ';'-separated   f:a                  active index of failover group f
      faults : ';'-separated   T:k:<idhex|*>:from:to:F[:arg]   T in G P N; the from..to-1 th
-              occurrence (counted in the history) of that operation gets fault F in io rd rp
+              occurrence (counted in the history) of that operation gets fault F in io rd rp rs
+              (rs:<labelidhex>:<hex> = an answer labelled as that chunk)
      dec    : ';'-separated   <inhex>:<outhex|!>   what the real zstd decoder does
      comp   : ';'-separated   <inhex>:<outhex>     what the real zstd encoder does
      hash   : ';'-separated   <datahex>:<idhex>    the digest in use
@@ -65,6 +66,7 @@ let rec parse_s (t : string list) : stack * string list =
       (Http (nat_of_int (int_of_string h), converters (not (bool_of sc)), bool_of skip, bool_of unc,
              nat_of_int (int_of_string retry), s), r')
   | "P" :: h :: r -> let (s, r') = parse_s r in (Proto (nat_of_int (int_of_string h), s), r')
+  | "X" :: k :: r -> (Foreign (nat_of_int (int_of_string k)), r)
   | x :: _ -> failwith ("stack token " ^ x)
   | [] -> failwith "stack: end"
 and parse_n n t =
@@ -87,6 +89,7 @@ let parse_rule (e : string) : rule =
         | "io", _ -> FIO
         | "rd", [n] -> FRead (nat_of_int (int_of_string n))
         | "rp", [h] -> FReplace (bytes_of_hex h)
+        | "rs", [l; h] -> FRespond (id_of_hex l, bytes_of_hex h)
         | _ -> failwith ("fault " ^ f) in
       { rt = t.[0]; rk = int_of_string k; rid = (if i = "*" then None else Some (id_of_hex i));
         rfrom = int_of_string a; rto = int_of_string b; rf = fl }
